@@ -12,10 +12,18 @@ CORPORA = {
     "refslice": dict(model="MC_RefSlice",
                      quick=dict(MaxLen=24, MaxDecl=40), thorough=dict(MaxLen=40, MaxDecl=56),
                      profiles=DEV_REL, place="both"),
+    "load": dict(model="MC_Load", quick=dict(MaxT=72), thorough=dict(MaxT=160), profiles=DEV_REL, place="both"),
+    "walk": dict(model="MC_Walk", quick=dict(MaxT=32), thorough=dict(MaxT=40), profiles=DEV_REL, place="both"),
 }
 
 # property -> list of corpus names; nontrivial rule used for evidence
 CHECKS = {
+    "C02": dict(corpora=["load"],
+                rule="cases = all (total size, reserved word, last-8-bytes type/size) in bounds + null pointer; "
+                     "non-trivial = every case (each has a distinct specified outcome class or size)"),
+    "C03": dict(corpora=["walk", "load"],
+                rule="cases = all lazily chosen header sequences (type in {0,3,99}, size 0..remaining+9) of regions up to MaxT; "
+                     "each drained by a tag iterator, a mid-walk clone and the module iterator"),
     "C14": dict(corpora=["refslice"],
                 rule="cases = all (header kind, slice length, start alignment, declared size) in bounds; "
                      "non-trivial = distinct cases whose specified outcome is not ShorterThanHeader"),
